@@ -57,7 +57,10 @@ fn encode_generate_code_request(parsed_files: &[slicec::slice_file::SliceFile]) 
     Ok(encoding_buffer)
 }
 
-fn spawn_plugin_process(plugin: &Plugin, slice_payload: &[u8]) -> std::io::Result<Child> {
+/// A handle to a generator subprocess, along with a handle to the thread that's writing to its 'stdin'.
+type PluginProcess = (Child, std::thread::JoinHandle<std::io::Result<()>>);
+
+fn spawn_plugin_process(plugin: &Plugin, slice_payload: &[u8]) -> std::io::Result<PluginProcess> {
     // Spawn a new subprocess and set up pipes for all of its streams.
     let mut subprocess = Command::new(&plugin.path)
         .stdin(Stdio::piped())
@@ -65,26 +68,29 @@ fn spawn_plugin_process(plugin: &Plugin, slice_payload: &[u8]) -> std::io::Resul
         .stderr(Stdio::piped())
         .spawn()?;
 
-    // We require that plugins must read the entire payload from 'stdin' before writing to 'stdout' or 'stderr',
-    // so there's no concern of deadlock due to the pipe buffer filling up.
-
-    // Write the encoded Slice definitions to the subprocess's 'stdin'.
-    let stdin = subprocess.stdin.as_mut().ok_or(ErrorKind::BrokenPipe)?;
-    stdin.write_all(slice_payload)?;
-
-    // Encode and write any plugin arguments to the subprocess's 'stdin'.
+    // Encode any plugin arguments; they're written to the subprocess's 'stdin' after the encoded Slice definitions.
     let mut arguments_payload = Vec::new();
     let mut slice_encoder = Encoder::from(&mut arguments_payload);
     slice_encoder.encode(definition_types::Arguments(plugin.args.clone()))?;
-    stdin.write_all(&arguments_payload)?;
+    let payload = [slice_payload, &arguments_payload].concat();
+
+    // Write the payload to the subprocess's 'stdin' from a separate thread. Plugins are supposed to read the entire
+    // payload before writing to 'stdout' or 'stderr', but we can't rely on that: if one doesn't, and we were blocked
+    // writing to its (full) 'stdin' pipe while it's blocked writing to one of its (full) output pipes, we'd deadlock.
+    // The thread closes 'stdin' when it's done writing, which signals the end of the payload to the plugin.
+    let mut stdin = subprocess.stdin.take().ok_or(ErrorKind::BrokenPipe)?;
+    let stdin_writer = std::thread::spawn(move || stdin.write_all(&payload));
 
     // Return a handle to the subprocess so we can wait on it to complete.
-    Ok(subprocess)
+    Ok((subprocess, stdin_writer))
 }
 
-fn collect_plugin_output(subprocess: Child) -> std::io::Result<Vec<u8>> {
+fn collect_plugin_output((subprocess, stdin_writer): PluginProcess) -> std::io::Result<Vec<u8>> {
     // Wait until the subprocess finishes, then retrieve its output.
     let output = subprocess.wait_with_output()?;
+
+    // If we failed to write the payload to the subprocess's 'stdin', we consider this a failure.
+    stdin_writer.join().map_err(|_| Error::other("failed to write to 'stdin'"))??;
 
     // If the subprocess wrote anything to its 'stderr', we consider this a failure and don't generate any code.
     if !output.stderr.is_empty() {
